@@ -195,6 +195,10 @@ def getattr_(ex, o, name):
             ex.raise_(AttributeError, name)
         return Bound(name, o)
     if isinstance(o, Sym):
+        from .values import ext_kind
+
+        if ext_kind(o.k) is not None:
+            return ext_kind(o.k).getattr(ex, o, name)
         return Bound(name, o)
     if isinstance(o, (bytes, bytearray, tuple, str, int, frozenset, range, float)) and not isinstance(o, enum.Enum):
         return getattr(o, name)
@@ -279,6 +283,10 @@ def pytype_of(ex, v):
             return bytes
         if isinstance(v.k, tuple) and v.k[0] == 'seq':
             return list
+        from .values import ext_kind
+
+        if ext_kind(v.k) is not None:
+            return ext_kind(v.k).pytype(v.k)
         return None
     if isinstance(v, Ref):
         ho = ex.obj(v)
